@@ -144,6 +144,16 @@ def run(ctx):
     vlib.log("spec MaskRules_quick.cfg (rule decision = function of (rule, value), 3 instances): %d states; mutant "
              "(scratch buffer on the shared rule set, 2 instances) rejected with a %d-state counterexample"
              % (res.distinct, len(mut.trace)))
+    # number / index of masks: a per-field mask set that can hold every index accepted, a W-bit set rejected
+    res2 = ctx.tlc_expect_ok("MaskSet", "MaskSet_quick.cfg", timeout=300, deadlock=False, workers=4)
+    mut2 = ctx.tlc("MaskSet", "MaskSet_mutant.cfg", timeout=300, deadlock=False, workers=4,
+                   name="MaskSet/mutant (expected violation)")
+    if mut2.ok or mut2.violated != "IndexIndependent":
+        raise vlib.Infra("mutant M_MaskSetUnbounded=FALSE was not rejected by TLC (violated=%s): MaskSet.tla no longer "
+                         "distinguishes the mechanism" % mut2.violated)
+    vlib.log("spec MaskSet_quick.cfg (a mask's scope does not depend on its index, 4 masks): %d states; mutant (set over "
+             "indices < 2, 3 masks) rejected with a %d-state counterexample" % (res2.distinct, len(mut2.trace)))
+    model["MaskSet"] = {"mechanism_states": res2.distinct, "mutant_rejected": True, "mutant_trace_len": len(mut2.trace)}
     model["MaskRules"] = {"mechanism_states": res.distinct, "mutant_rejected": True, "mutant_trace_len": len(mut.trace)}
     ctx.extra["abstract_model"] = model
 
@@ -182,6 +192,10 @@ def run(ctx):
              "the secrets): %d runs" % sm.get("doif_order_runs", 0))
     if not ctx.replay and sm.get("doif_order_runs", 0) < 200:
         raise vlib.Infra("do_if-order family did not run: %s" % sm)
+    vlib.log("many-masks family (matching masks with / without own process / ignore lists behind 0, 1, 62, 63, 64, 65, 130 "
+             "silent masks): %d runs" % sm.get("many_masks_runs", 0))
+    if not ctx.replay and sm.get("many_masks_runs", 0) < 150:
+        raise vlib.Infra("many-masks family did not run: %s" % sm)
     if not files or sm["unique_records"] == 0:
         raise vlib.Infra("driver produced no records")
     if not ctx.replay and (sm["leaf"] < 20000 or sm["events"] < 1000 or sm["matched"] < 10000):
@@ -254,7 +268,8 @@ def run(ctx):
 
     # ---- 5. evidence
     ctx.evaluations = agg["records"]
-    ctx.traces_validated = sm["leaf"] + sm["events"] + sm.get("stress_runs", 0) + sm.get("doif_order_runs", 0)
+    ctx.traces_validated = (sm["leaf"] + sm["events"] + sm.get("stress_runs", 0) + sm.get("doif_order_runs", 0)
+                            + sm.get("many_masks_runs", 0))
     ctx.nontrivial = sm["matched"] + sm["events"]
     ctx.exhaustive = thorough
     ctx.rule = ("record = one execution of the real Plugin.Do (started by the real Start): leaf records = curated regexp "
@@ -264,7 +279,9 @@ def run(ctx):
                 "from the repository tests; event records = nested objects / arrays / non-string leaves x 1-2 masks x "
                 "global and per-mask process / ignore lists x match rules; do_if-order family = 1-2 masks whose do_if reads a "
                 "field that an earlier mask, a later mask or the mask itself rewrites x events with that field before / "
-                "after / between the secrets (later key, nested object, array); stress family = 4 instances started on ONE "
+                "after / between the secrets (later key, nested object, array); many-masks family = the matching masks (own process "
+                "list, own ignore list, none + global lists) before / behind K in {0,1,62,63,64,65,130} masks that match nothing, "
+                "judged with the silent masks projected away; stress family = 4 instances started on ONE "
                 "shared config (do_if-guarded masks, match rules, own lists) run concurrently over events with alternating "
                 "do_if outcomes, and masks with match_rules (prefix / suffix / contains, case_insensitive on/off, invert, and/or, "
                 "two rule sets) whose shared RuleSet objects are evaluated by the 4 instances on their own distinct values "
